@@ -70,7 +70,8 @@ Record transport := mkTp {
   i_mon : mstate;        (* the task running RTCIceTransport._monitor *)
   i_starting : bool;     (* start() is awaiting connection.connect() *)
   i_cclosed : bool;      (* aioice connection closed *)
-  i_consent : bool       (* aioice consent-check task running *)
+  i_consent : bool;      (* aioice consent-check task running *)
+  i_candend : bool       (* end of remote candidates signalled to aioice *)
 }.
 
 Record sctp := mkSc {
@@ -134,6 +135,7 @@ Inductive ev :=
 | ENegoSig                                        (* a negotiation call sets the signalling state *)
 | EChanNew
 | ESctpDown                                       (* association closed by the peer / by time-outs *)
+| ECandEnd (t : nat)                              (* end of the remote candidates *)
 (* close() *)
 | ECloseCall (id : nat)
 | ECloseRet (id : nat)
@@ -263,7 +265,7 @@ Definition stop_call (fx : bool) (c : cfg) (o : op) : option cfg :=
           match i_state tp with
           | IClosed => Some (set_sub c SDone)
           | _ => Some (set_sub (set_tp c t (mkTp (d_state tp) (d_pump tp) (d_ref tp) IClosed (i_mon tp)
-                                               (i_starting tp) (i_cclosed tp) (i_consent tp))) SIceClosing)
+                                               (i_starting tp) (i_cclosed tp) (i_consent tp) (i_candend tp || fx))) SIceClosing)
           end
       end
   end.
@@ -328,7 +330,7 @@ Definition do_cancel (c : cfg) (k : kind) (i : nat) : option cfg :=
         | Some tp =>
             Some (set_sub (set_tp c i (mkTp (d_state tp)
                                             (match d_pump tp with PRunning => PCancelling | p => p end)
-                                            false (i_state tp) (i_mon tp) (i_starting tp) (i_cclosed tp) (i_consent tp))) SDone)
+                                            false (i_state tp) (i_mon tp) (i_starting tp) (i_cclosed tp) (i_consent tp) (i_candend tp))) SDone)
         | None => None
         end
       else None
@@ -344,7 +346,7 @@ Definition step (fx : bool) (c : cfg) (e : ev) : option cfg :=
           | IClosed, _ => None                  (* InvalidStateError *)
           | _, MNone =>
               Some (set_tp c t (mkTp (d_state tp) (d_pump tp) (d_ref tp) IChecking MWaiting true
-                                     (i_cclosed tp) (i_consent tp)))
+                                     (i_cclosed tp) (i_consent tp) (i_candend tp)))
           | _, _ => None                        (* a later start() only waits for the first *)
           end
       | None => None
@@ -352,13 +354,14 @@ Definition step (fx : bool) (c : cfg) (e : ev) : option cfg :=
   | EIceStartRet t ok =>
       match nth_error (c_tps c) t with
       | Some tp =>
-          if i_starting tp then
+          (* connect() fails only once no more remote candidates are expected *)
+          if i_starting tp && (ok || i_candend tp) then
             let closed := match i_state tp with IClosed => true | _ => false end in
             let st := if closed && fx then IClosed else if ok then ICompleted else IFailed in
             (* connect() returning normally has launched the consent task; the repaired
                start() closes the connection again when stop() ran meanwhile *)
             let consent := if ok then negb (closed && fx) else i_consent tp in
-            Some (set_tp c t (mkTp (d_state tp) (d_pump tp) (d_ref tp) st (i_mon tp) false (i_cclosed tp) consent))
+            Some (set_tp c t (mkTp (d_state tp) (d_pump tp) (d_ref tp) st (i_mon tp) false (i_cclosed tp) consent (i_candend tp)))
           else None
       | None => None
       end
@@ -367,7 +370,7 @@ Definition step (fx : bool) (c : cfg) (e : ev) : option cfg :=
       | Some tp =>
           match d_state tp with
           | DNew => Some (set_tp c t (mkTp DConnecting (d_pump tp) (d_ref tp) (i_state tp) (i_mon tp)
-                                           (i_starting tp) (i_cclosed tp) (i_consent tp)))
+                                           (i_starting tp) (i_cclosed tp) (i_consent tp) (i_candend tp)))
           | _ => None
           end
       | None => None
@@ -378,9 +381,9 @@ Definition step (fx : bool) (c : cfg) (e : ev) : option cfg :=
           match d_state tp with
           | DConnecting =>
               if ok then Some (set_tp c t (mkTp DConnected PRunning true (i_state tp) (i_mon tp)
-                                                (i_starting tp) (i_cclosed tp) (i_consent tp)))
+                                                (i_starting tp) (i_cclosed tp) (i_consent tp) (i_candend tp)))
               else Some (set_tp c t (mkTp DFailed (d_pump tp) (d_ref tp) (i_state tp) (i_mon tp)
-                                          (i_starting tp) (i_cclosed tp) (i_consent tp)))
+                                          (i_starting tp) (i_cclosed tp) (i_consent tp) (i_candend tp)))
           | _ => None
           end
       | None => None
@@ -461,7 +464,7 @@ Definition step (fx : bool) (c : cfg) (e : ev) : option cfg :=
   | EPumpEnd t how =>
       match nth_error (c_tps c) t with
       | Some tp =>
-          let fin := mkTp DClosed PDone (d_ref tp) (i_state tp) (i_mon tp) (i_starting tp) (i_cclosed tp) (i_consent tp) in
+          let fin := mkTp DClosed PDone (d_ref tp) (i_state tp) (i_mon tp) (i_starting tp) (i_cclosed tp) (i_consent tp) (i_candend tp) in
           match d_pump tp, how with
           | PCancelling, O => Some (set_tp c t fin)
           | PRunning, S O =>
@@ -481,7 +484,7 @@ Definition step (fx : bool) (c : cfg) (e : ev) : option cfg :=
               if i_cclosed tp then
                 Some (set_tp c t (mkTp (d_state tp) (d_pump tp) (d_ref tp)
                                        (match i_state tp with ICompleted => IFailed | s => s end)
-                                       MDone (i_starting tp) (i_cclosed tp) (i_consent tp)))
+                                       MDone (i_starting tp) (i_cclosed tp) (i_consent tp) (i_candend tp)))
               else None
           | _ => None
           end
@@ -497,7 +500,7 @@ Definition step (fx : bool) (c : cfg) (e : ev) : option cfg :=
       | Some tp =>
           if i_consent tp then
             Some (set_tp c t (mkTp (d_state tp) (d_pump tp) (d_ref tp) (i_state tp) (i_mon tp)
-                                   (i_starting tp) true false))
+                                   (i_starting tp) true false (i_candend tp)))
           else None
       | None => None
       end
@@ -517,6 +520,12 @@ Definition step (fx : bool) (c : cfg) (e : ev) : option cfg :=
   | ESctpDown =>
       match c_sctp c with
       | Some s => Some (set_sctp c (Some (mkSc (sc_tp s) (sc_started s) true false 0)))
+      | None => None
+      end
+  | ECandEnd t =>
+      match nth_error (c_tps c) t with
+      | Some tp => Some (set_tp c t (mkTp (d_state tp) (d_pump tp) (d_ref tp) (i_state tp) (i_mon tp)
+                                          (i_starting tp) (i_cclosed tp) (i_consent tp) true))
       | None => None
       end
   | ECloseCall id =>
@@ -560,7 +569,7 @@ Definition step (fx : bool) (c : cfg) (e : ev) : option cfg :=
             match nth_error (c_tps c) t with
             | Some tp =>
                 Some (set_sub (set_tp c t (mkTp (d_state tp) (d_pump tp) (d_ref tp) (i_state tp) (i_mon tp)
-                                                (i_starting tp) true false))
+                                                (i_starting tp) true false (i_candend tp)))
                               (match i_mon tp with MNone => SDone | _ => SWaitMon end))
             | None => None
             end
@@ -578,10 +587,10 @@ Fixpoint run (fx : bool) (c : cfg) (l : list ev) : option cfg :=
 (* ------------------------------------------------------------------ measure *)
 Definition op_cost (o : op) : nat :=
   match o with ORecvStop _ => 5 | OSendStop _ => 8 | OSctpStop => 2 | ODtlsStop _ => 3 | OIceStop _ => 4 end.
-Definition begin_cost (t : tstate) : nat := match t with TCreated => 1 | _ => 0 end.
+Definition begin_cost (t : tstate) : nat := match t with TNone | TCreated => 1 | _ => 0 end.
 Definition end_cost (t : tstate) : nat :=
-  match t with TCreated | TRunning | TCancelling => 1 | _ => 0 end.
-Definition mon_cost (m : mstate) : nat := match m with MWaiting => 1 | _ => 0 end.
+  match t with TNone | TCreated | TRunning | TCancelling => 1 | _ => 0 end.
+Definition mon_cost (m : mstate) : nat := match m with MNone | MWaiting => 1 | MDone => 0 end.
 
 (* steps the current stop() still needs (its own and those of the tasks it awaits) *)
 Definition residual (c : cfg) (o : op) (s : sub) : nat :=
@@ -641,7 +650,7 @@ Definition helps (c : cfg) (e : ev) : bool :=
   | Some (id, todo, s) =>
       match e with
       | EStopCall _ | EStopRet _ | ECancel _ _ | EIceConnClosed _ => true
-      | ECloseRet id' => Nat.eqb id id'
+      | ECloseRet id' => match todo, s with [], SIdle => Nat.eqb id id' | _, _ => false end
       | ETaskBegin k i =>
           match todo, s with
           | ORecvStop j :: _, SWaitStarted => kind_eqb k KRRtcp && Nat.eqb i j
@@ -676,7 +685,7 @@ Fixpoint helped (fx : bool) (c : cfg) (l : list ev) : nat :=
 
 (* ------------------------------------------------------------------ initial configurations *)
 Definition trx0 (t : nat) : trx := mkT (mkS false TNone TNone) (mkR false TNone false false) t.
-Definition tp0 : transport := mkTp DNew PNone false INew MNone false false false.
+Definition tp0 : transport := mkTp DNew PNone false INew MNone false false false false.
 Definition init (tps : list nat) (ntp : nat) (sc : option nat) : cfg :=
   mkCfg (map trx0 tps) (repeat tp0 ntp)
         (match sc with Some t => Some (mkSc t false false false 0) | None => None end)
@@ -715,7 +724,8 @@ Definition ev_of_sx (x : sx) : ev :=
   else if Z.eqb t 18 then EStopRet (op_of_z b a)
   else if Z.eqb t 19 then ECancel (kind_of_z b) a
   else if Z.eqb t 20 then EIceConnClosed a
-  else ESctpDown.
+  else if Z.eqb t 21 then ESctpDown
+  else ECandEnd a.
 
 (* replay a recorded trace; returns the number of accepted events and the last configuration *)
 Fixpoint replay (fx : bool) (c : cfg) (l : list ev) (n : Z) : Z * cfg :=
@@ -743,7 +753,7 @@ Definition sx_of_trx (x : trx) : sx :=
      of_b (r_dec (t_r x))].
 Definition sx_of_tp (tp : transport) : sx :=
   L [A (z_of_dstate (d_state tp)); A (z_of_pstate (d_pump tp)); A (z_of_istate (i_state tp));
-     A (z_of_mstate (i_mon tp)); of_b (i_consent tp)].
+     A (z_of_mstate (i_mon tp)); of_b (i_consent tp); of_b (i_starting tp)].
 Definition sx_of_cfg (c : cfg) : sx :=
   L [A (z_of_fut (c_closed c)); of_b (c_sig_closed c);
      L (map sx_of_trx (c_trx c)); L (map sx_of_tp (c_tps c));
